@@ -358,7 +358,7 @@ def run(chk):
         for name, runs, fs0 in CORE2:
             for sched in schedules(runs, fs0, 0):
                 one(chk, pool, state, name, runs, fs0, sched)
-        extra2 = MORE2 + [random_scenario(rng, 2) for _ in range(6 if thorough else 2)]
+        extra2 = MORE2 + [random_scenario(rng, 2) for _ in range(4 if thorough else 2)]
         for name, runs, fs0 in extra2:
             full = schedules(runs, fs0, 0)
             if thorough and len(full) <= 1500:
@@ -372,7 +372,7 @@ def run(chk):
             for sched, g in todo:
                 one(chk, pool, state, name, runs, fs0, sched, gran=g)
         # 3 runs: reduced interleavings (all in the thorough tier, a sample otherwise)
-        three = CORE3 + [random_scenario(rng, 3) for _ in range(4 if thorough else 1)]
+        three = CORE3 + [random_scenario(rng, 3) for _ in range(2 if thorough else 1)]
         for name, runs, fs0 in three:
             red = schedules(runs, fs0, 1)
             state.setdefault("reduced3", {})[name] = len(red)
@@ -380,7 +380,7 @@ def run(chk):
             for sched in todo:
                 one(chk, pool, state, name, runs, fs0, sched, gran="reduced")
             # a few fully fine-grained random interleavings of three runs
-            for _ in range(200 if thorough else 20):
+            for _ in range(100 if thorough else 20):
                 base = list(rng.choice(red))
                 rng.shuffle(base)
                 one(chk, pool, state, name, runs, fs0, base, gran="random-full")
